@@ -6,6 +6,7 @@ CONSTANTS
   RhsVals = {0}
   DropTols = {0}
   Kinds = {"solve", "droptol", "project"}
+  CertifyDirect = TRUE
   Given = TRUE
   Emitting = TRUE
 INVARIANT ConsExact
@@ -13,6 +14,8 @@ INVARIANT FreeResidual
 INVARIANT IndepOfGuess
 INVARIANT SingularRaises
 INVARIANT NaNExact
+INVARIANT Certified
+INVARIANT NoSpuriousFailure
 INVARIANT NoSilent
 INVARIANT DenNonZero
 INVARIANT EmitTerminal
